@@ -35,6 +35,8 @@ type ABCIGenesis struct {
 	} `json:"pools"`
 	// VestingDenom is the vesting module's denomination parameter in the genesis file ("" = uc4e)
 	VestingDenom string `json:"vesting_denom,omitempty"`
+	// SecondDenom: every account also holds coins of the other denomination (uatom) at genesis
+	SecondDenom bool `json:"second_denom,omitempty"`
 	// UpperOwners lists the pool owners (account indexes) that the genesis file spells in upper case bech32
 	UpperOwners []int `json:"upper_owners,omitempty"`
 }
@@ -98,7 +100,9 @@ func (g ABCIGenesis) Spec() GenesisSpec {
 	vg := DefaultVestingGenesis()
 	if g.VestingDenom != "" {
 		vg.Params.Denom = g.VestingDenom
-		spec.AccExtraCoins = sdk.NewCoins(sdk.NewCoin(g.VestingDenom, sdk.NewIntFromUint64(1_000_000_000_000_000_000)))
+	}
+	if g.VestingDenom != "" || g.SecondDenom {
+		spec.AccExtraCoins = sdk.NewCoins(sdk.NewCoin("uatom", sdk.NewIntFromUint64(1_000_000_000_000_000_000)))
 	}
 	for _, vt := range g.VTypes {
 		vg.VestingTypes = append(vg.VestingTypes, vt.GenesisForm())
@@ -138,6 +142,8 @@ type abciDriver struct {
 	hist         ConcreteHistory
 	log          []string
 	freshNo      int
+	scripted     []plannedTx // transactions a test placed at the head of the next block
+	quietBlocks  int         // that many next blocks carry nothing but votes and scripted transactions
 	failedExec   int
 	failedExecAt []int // indexes of the blocks whose EndBlock rolled a passed proposal back
 	created      []int // indices of FreshAcc that became vesting accounts
@@ -352,6 +358,12 @@ var abciDts = []int64{secNs, 5 * secNs, 11 * secNs, 60 * secNs, dayNs, 30 * dayN
 func (d *abciDriver) genBlock(label string) BlockTrace {
 	t := d.t
 	dt := abciDts[rapid.IntRange(0, len(abciDts)-1).Draw(t, label+"_dt")]
+	quiet := d.quietBlocks > 0
+	if quiet {
+		// a block that carries only the votes and what the test scripted, 11 s after the previous one
+		d.quietBlocks--
+		dt = 11 * secNs
+	}
 	tm := d.c.Time.Add(time.Duration(dt))
 	bt := d.c.Begin(tm)
 	if d.afterBegin != nil {
@@ -369,8 +381,18 @@ func (d *abciDriver) genBlock(label string) BlockTrace {
 	}
 	d.propIDs = nil
 	n := rapid.IntRange(0, 4).Draw(t, label+"_ntx")
-	for i := 0; i < n; i++ {
-		p := d.genTx(fmt.Sprintf("%s_tx%d", label, i))
+	if quiet {
+		n = 0
+	}
+	scripted := d.scripted
+	d.scripted = nil
+	for i := 0; i < n+len(scripted); i++ {
+		var p plannedTx
+		if i < len(scripted) {
+			p = scripted[i] // transactions a test placed at the head of this block
+		} else {
+			p = d.genTx(fmt.Sprintf("%s_tx%d", label, i-len(scripted)))
+		}
 		bz := p.raw
 		if bz == nil {
 			bz = d.c.BuildTx(p.signer, p.msgs...)
